@@ -15,8 +15,9 @@ from common import Check, TRUSTED_BASE_COMMON, WORK, PY, enc_bool, enc_str, enc_
 
 SCRATCH = WORK / "c15"
 DOCS = {
-    "a.md": "# **Bold Title**\n\nShe said \"hello\" and... left.   It's a long   line of text that will certainly need to be wrapped somewhere. Second sentence here.\n\n- one\n- two\n\n1. x\n\n2. y\n",
-    "b.md": "Plain *b* file... with 'quotes'. Short. Another short sentence follows it.\n",
+    # a.md ends in a heading and b.md starts with a definition and an empty line: state left behind by one file of a run would show in the next
+    "a.md": "# **Bold Title**\n\nShe said \"hello\" and... left.   It's a long   line of text that will certainly need to be wrapped somewhere. Second sentence here.\n\n- one\n- two\n\n1. x\n\n2. y\n\n## Last heading\n",
+    "b.md": "[ref]: /u \"T\"\n\nPlain *b* file... with 'quotes' and [ref]. Short. Another short sentence follows it.\n",
     "c.md": "**All bold**\n===\n\n> quote   text\n",
 }
 WIDTHS = [0, 1, 40, 88, -5]
@@ -25,8 +26,85 @@ SINKS = ["stdout", "-o", "inplace", "inplace+nobackup", "auto"]
 SOURCES = ["file", "stdin", "3files"]
 
 
+# documents whose bytes matter: line endings, missing final newline, non-ASCII, already formatted
+VARIETY = {
+    "crlf-fixed-point": b"Already formatted text.\r\n\r\n- item\r\n",
+    "crlf": b"# T\r\n\r\nSome   text here.\r\nMore.\r\n",
+    "lone-cr": b"---\na: x\ry\n---\nbody one\rtwo\n",
+    "no-final-newline": b"last   line without newline",
+    "non-ascii": "caf\u00e9   \u65e5\u672c\u8a9e \u201cq\u201d \u2026 na\u00efve\n".encode(),
+    "fixed-point": b"Already formatted.\n",
+    "empty": b"",
+    "blank-lines": b"\n\n  \n",
+}
+
+
+def variety_section(chk, reformat_text, tier):
+    """every entry point on documents whose bytes matter; everything is compared as bytes with the text API's result on the decoded
+    file content (decoded without newline translation)"""
+    from flowmark.reformat_api import reformat_file
+    d = SCRATCH / "v"
+    nb = 0
+    n = 0
+    base = dict(width=88, plaintext=False, semantic=False, cleanups=False, smartquotes=False, ellipses=False)
+    auto = dict(base, semantic=True, cleanups=True, smartquotes=True, ellipses=True)
+    env = dict(os.environ, PYTHONPATH="/repo/src")
+    for name, raw in VARIETY.items():
+        text = raw.decode("utf-8")
+        for entry in ("file-stdout", "stdin-stdout", "stdin-o", "inplace", "inplace-nobackup", "auto", "file-api", "file-api-inplace", "two-files"):
+            if d.exists():
+                shutil.rmtree(d)
+            d.mkdir(parents=True)
+            (d / "x.md").write_bytes(raw)
+            (d / "y.md").write_bytes(b"Other   file.\n")
+            o = auto if entry == "auto" else base
+            want = reformat_text(text, **o).encode("utf-8")
+            got = None
+            rc = 0
+            try:
+                if entry == "file-stdout":
+                    p = subprocess.run([PY, "-m", "flowmark.cli", "x.md"], cwd=d, env=env, stdout=subprocess.PIPE, stderr=subprocess.PIPE, timeout=60)
+                    got, rc = p.stdout, p.returncode
+                elif entry == "two-files":
+                    p = subprocess.run([PY, "-m", "flowmark.cli", "y.md", "x.md"], cwd=d, env=env, stdout=subprocess.PIPE, stderr=subprocess.PIPE, timeout=60)
+                    got, rc = p.stdout, p.returncode
+                    want = reformat_text("Other   file.\n", **o).encode() + want
+                elif entry == "stdin-stdout":
+                    p = subprocess.run([PY, "-m", "flowmark.cli", "-"], cwd=d, env=env, input=raw, stdout=subprocess.PIPE, stderr=subprocess.PIPE, timeout=60)
+                    got, rc = p.stdout, p.returncode
+                elif entry == "stdin-o":
+                    p = subprocess.run([PY, "-m", "flowmark.cli", "-o", "out.md", "-"], cwd=d, env=env, input=raw, stdout=subprocess.PIPE, stderr=subprocess.PIPE, timeout=60)
+                    got, rc = ((d / "out.md").read_bytes() if (d / "out.md").exists() else None), p.returncode
+                elif entry in ("inplace", "inplace-nobackup", "auto"):
+                    argv = {"inplace": ["-i"], "inplace-nobackup": ["-i", "--nobackup"], "auto": ["--auto"]}[entry]
+                    p = subprocess.run([PY, "-m", "flowmark.cli"] + argv + ["x.md"], cwd=d, env=env, stdout=subprocess.PIPE, stderr=subprocess.PIPE, timeout=60)
+                    got, rc = (d / "x.md").read_bytes(), p.returncode
+                elif entry == "file-api":
+                    reformat_file(d / "x.md", d / "api.md", inplace=False, **api_kwargs(dict(base, list_spacing="preserve")))
+                    got = (d / "api.md").read_bytes()
+                elif entry == "file-api-inplace":
+                    reformat_file(d / "x.md", None, inplace=True, nobackup=True, **api_kwargs(dict(base, list_spacing="preserve")))
+                    got = (d / "x.md").read_bytes()
+            except Exception as e:  # noqa: BLE001
+                got, rc = f"<raised {type(e).__name__}: {e}>".encode(), -1
+            n += 1
+            chk.count()
+            chk.hist("variety_entry", entry)
+            chk.nontrivial((name, entry))
+            if got != want or rc != 0:
+                nb += 1
+                chk.fail("property", {"document": name, "bytes": raw.decode("latin-1"), "entry": entry, "got": (got or b"").decode("latin-1")[:300],
+                                      "text_api": want.decode("latin-1")[:300], "exit": rc, "variety": True},
+                         f"entry point {entry} delivers other bytes than the text API on document '{name}'", classify)
+    chk.port_stat("every entry point x documents whose bytes matter (compared as bytes)", n, nb)
+    shutil.rmtree(d, ignore_errors=True)
+
+
 def classify(kf, rec):
     c = rec["case"]
+    if kf.get("classifier") == "lone-cr-read-as-line-end":
+        raw = c.get("bytes", "")
+        return bool(c.get("variety")) and "\r" in raw.replace("\r\n", "") and c.get("entry") != "text-api"
     if kf.get("classifier") == "inplace-with-stdin-among-files":
         return c.get("usage") == "inplace-stdin-mixed"
     if kf.get("classifier") == "clustered-short-flags":
@@ -127,7 +205,12 @@ def one_case(chk, d: Path, o, sink, source, short, reformat_text):
     # model
     kw = api_kwargs(eff)
     texts = [stdin_text if f == "-" else DOCS[f] for f in files]
-    fmt_table = [(t, reformat_text(t, **kw)) for t in dict.fromkeys(texts)]
+    # "the result it would get alone": each expected text is computed right after a neutral document, never after another input of the
+    # run, so that state a file leaves behind inside the process cannot enter the expectation the same way it enters the run
+    def alone(t):
+        reformat_text("A neutral paragraph.\n", **kw)
+        return reformat_text(t, **kw)
+    fmt_table = [(t, alone(t)) for t in dict.fromkeys(texts)]
     req = "main_run %s %s %s %s %s %s" % (
         enc_fo(eff, inplace, nobackup), enc_strs(files), ("1 " + enc_str(output)) if output else "0", enc_str(stdin_text),
         " ".join([str(len(DOCS))] + [enc_str(n) + " 1 " + enc_str(c) for n, c in DOCS.items()]),
@@ -253,6 +336,7 @@ def run(chk: Check) -> None:
             chk.fail("property", {"argv": argv, "subprocess_stdout": p.stdout[:300], "file_api": api[:300], "text_api": want[:300]},
                      "subprocess CLI / file API / text API disagree", classify)
     chk.port_stat("subprocess CLI vs file API vs text API", nsub, nb)
+    variety_section(chk, reformat_text, tier)
     shutil.rmtree(SCRATCH, ignore_errors=True)
 
 
